@@ -136,7 +136,7 @@ def dmm_specs(draw, physical=False):
 @st.composite
 def device_specs(draw, mode="ising", allow_builtin=True, force_type=None,
                  channels=None, max_seq=None, n_channels=(1, 4), chan_kw=None,
-                 allow_dmm=True):
+                 allow_dmm=True, n_dmm=(0, 2)):
     """mode: 'ising' | 'xy' | 'mixed' (both kinds of channel on the device)."""
     chan_kw = chan_kw or {}
     t = force_type or draw(st.sampled_from(
@@ -163,7 +163,7 @@ def device_specs(draw, mode="ising", allow_builtin=True, force_type=None,
     s["channels"] = channels
     if draw(st.integers(0, 4)) == 0:
         s["channel_ids"] = [f"cid{i}" for i in range(len(channels))]
-    nd = draw(st.integers(0, 2)) if allow_dmm else 0
+    nd = draw(st.integers(*n_dmm)) if allow_dmm else 0
     s["dmms"] = [draw(dmm_specs(physical=physical)) for _ in range(nd)]
     s["supports_slm_mask"] = bool(nd) and draw(st.booleans())
     s["dimensions"] = 3
@@ -297,7 +297,17 @@ def _det_val(draw, cs, fault=False):
 @st.composite
 def waveform_specs(draw, d, lo, hi, nonneg=False, depth=0, kinds=None,
                    changeable=False):
-    """A waveform of duration d with values in [lo, hi] (by construction)."""
+    """A waveform of duration d with values in [lo, hi] (by construction);
+    one in three passes its value parameters by keyword."""
+    out = draw(_waveform_specs(d, lo, hi, nonneg, depth, kinds, changeable))
+    if out["k"] not in ("custom", "composite") and draw(st.integers(0, 2)) == 0:
+        out["kw"] = True
+    return out
+
+
+@st.composite
+def _waveform_specs(draw, d, lo, hi, nonneg=False, depth=0, kinds=None,
+                    changeable=False):
     pool = kinds or ["const", "const", "ramp", "blackman", "kaiser", "interp",
                      "custom", "composite"]
     if changeable:
@@ -400,6 +410,8 @@ def pulse_specs(draw, cs, fault=None, simple=False, changeable=False):
                    phase=phase)
     if draw(st.integers(0, 3)) == 0:
         out["pps"] = draw(st.sampled_from([0.0, math.pi, -1.0, 0.5, TWO_PI, 9.0]))
+    if draw(st.integers(0, 3)) == 0:
+        out["kw"] = True  # constructor arguments by keyword
     return out
 
 
@@ -648,8 +660,8 @@ def draw_op(draw, S: GState, P: dict):
             return dict(op="delay", ch=i, d=_dur(draw, cs), style=style)
         op = dict(op="add_eom", ch=i, d=_dur(draw, cs),
                   phase=draw(st.sampled_from(PHASES)), style=style)
-        if draw(st.integers(0, 3)) == 0:
-            op["pps"] = draw(st.sampled_from([0.0, 1.0, math.pi]))
+        if draw(st.integers(0, 2)) == 0:
+            op["pps"] = draw(st.sampled_from([0.0, 1.0, math.pi, -2.5]))
         if draw(st.booleans()):
             op["protocol"] = draw(st.sampled_from(PROTOCOLS))
         if draw(st.booleans()):
@@ -661,6 +673,8 @@ def draw_op(draw, S: GState, P: dict):
             if draw(st.integers(0, 4)) > 0:
                 op = dict(op="add_eom", ch=i, d=_dur(draw, cs),
                           phase=draw(st.sampled_from(PHASES)), style=style)
+                if draw(st.integers(0, 2)) == 0:
+                    op["pps"] = draw(st.sampled_from([0.0, 1.0, math.pi, -2.5]))
                 if draw(st.booleans()):
                     op["protocol"] = draw(st.sampled_from(PROTOCOLS))
                 if draw(st.booleans()):
